@@ -280,6 +280,33 @@ def rule_winalias_bounds(ctx, prop: str) -> RuleResult:
     res.ob(ok)
     if not ok:
         res.add(Finding("WINALIAS", B, cs[0].lineno, f.qualname, "Call->translate_eff", "callee effects on a window argument are not translated to the caller's buffer"))
+    # ... under the name the effects carry at that point: `bind[sig.name] = arg.name` followed by
+    # `eff.subst(bind)` renames the effects of a plain window-variable argument to the variable, so a
+    # translation keyed by the formal's name alone never matches them
+    renames = [n for n in ast.walk(body) if isinstance(n, ast.Assign) and isinstance(n.targets[0], ast.Subscript) and dotted(n.targets[0].value) == "bind"
+               and isinstance(n.value, ast.Attribute) and n.value.attr == "name"]
+    substs = [n for n in ast.walk(body) if isinstance(n, ast.Call) and isinstance(n.func, ast.Attribute) and n.func.attr == "subst" and n.args and dotted(n.args[0]) == "bind"]
+    if renames and substs:
+        actual = dotted(renames[0].value)  # e.g. arg.name
+        for n in ast.walk(body):
+            if isinstance(n, ast.Call) and last_name(n) == "translate_eff" and len(n.args) >= 2 and n.lineno > substs[0].lineno:
+                res.instances += 1
+                res.nontrivial += 1
+                key = n.args[1]
+                srcs = {ast.unparse(key)}
+                if isinstance(key, ast.Name):
+                    for k in ast.walk(body):
+                        if isinstance(k, ast.Assign) and len(k.targets) == 1 and dotted(k.targets[0]) == key.id:
+                            srcs.add(ast.unparse(k.value))
+                ok = any(actual in t for t in srcs)
+                res.ob(ok)
+                res.sample(f"{f.qualname} Call: translate_eff keyed by `{' / '.join(sorted(srcs))[:80]}` accounts for the renamed window variable `{actual}`: {ok}")
+                if not ok:
+                    res.add(
+                        Finding("WINALIAS", B, n.lineno, f.qualname, "Call->translate_eff-key",
+                                f"callee effects were renamed to the argument's own name (`bind[...] = {actual}`; `eff.subst(bind)`) but are translated under `{ast.unparse(key)}` only: "
+                                f"for `w = y[2:10]; callee(w)` the accesses stay on `w` and are never compared with the extent of `y` (out-of-bounds call accepted)")
+                    )
     # the translation itself must follow chains of windows (while isinstance(typ, T.Window))
     t = m.func("CheckBounds.translate_eff")
     res.instances += 1
@@ -293,7 +320,7 @@ def rule_winalias_bounds(ctx, prop: str) -> RuleResult:
     res.ob(ok)
     if not ok:
         res.add(Finding("WINALIAS", B, t.lineno, t.qualname, "three-kinds", "translate_eff must translate reads, writes and reduces"))
-    res.floor = 6
+    res.floor = 7
     return res
 
 
